@@ -862,6 +862,18 @@ class _Defs:
         return nm
 
 
+def _bits_differ(a, b):
+    a = np.ascontiguousarray(a, dtype=np.float64)
+    b = np.ascontiguousarray(b, dtype=np.float64)
+    return (a.view(np.int64) != b.view(np.int64)) & ~(np.isnan(a) & np.isnan(b))
+
+
+def _diff(base, new) -> str:
+    """Cells of `new` that differ bit-wise from `base`, as a Coq list ((q, c), value)."""
+    idx = np.argwhere(_bits_differ(base, new))
+    return coq_list([f"(({coq_z(int(q))}, {coq_z(int(c))}), {coq_float(float(new[q, c]))})" for q, c in idx])
+
+
 def _registers(case, names, nbase):
     regs = {r: {} for r in ("exogenized_anticipated", "endogenized_anticipated", "exogenized_unanticipated",
                             "endogenized_unanticipated")}
@@ -934,15 +946,17 @@ def coq_sim(case, rec, prefix) -> tuple[str, str]:
         jm = D.define("list (Z * Z * Z * Z)", jm)
         wt = D.define("list (list spot)", coq_list([_spots(tk) for tk in j["wrt_tokens"]]))
         ex = "None" if fr["exogenized_spots"] is None else f"(Some {_spots(fr['exogenized_spots'])})"
+        dp = D.define("diff", _diff(fr["main_before"], fr["pruned"]))
+        da = D.define("diff", _diff(fr["pruned"], fr["after"]))
         frecs.append(D.define("frame_rec",
-                              f"mkFrameRec {D.arr(fr['after'])} {_zs(fr['columns_to_run'])} {_spots(fr['wrt_spots'])} {ex} "
+                              f"mkFrameRec {dp} {da} {_zs(fr['columns_to_run'])} {_spots(fr['wrt_spots'])} {ex} "
                               f"{_spots(fr['update_map'])} {wt} {_spots(j['lhs_tokens'])} {jm} "
                               f"({coq_z(j['shape'][0])}, {coq_z(j['shape'][1])}) {tobs} {pe} {stk}"))
     nm = D.define("sim_case",
                   f"mkSimCase {coq_bool(case['method'] == 'period_by_period')} {_zs(cr['base_periods'])} "
                   f"{_zs(cr['base_columns'])} {ucut} {pcut} {coq_list(fobs)} {setup} "
-                  f"{D.arr(frs[0]['input_data_array'])} {D.arr(frs[0]['main_before'])} {coq_list(frecs)} "
-                  f"{D.arr(frs[-1]['main_after'])}")
+                  f"{D.arr(frs[0]['main_before'])} {D.define('diff', _diff(frs[0]['main_before'], frs[0]['input_data_array']))} "
+                  f"{coq_list(frecs)} {D.define('diff', _diff(frs[0]['main_before'], frs[-1]['main_after']))}")
     return "\n".join(D.lines), nm
 
 
@@ -961,7 +975,8 @@ def shard_text(items) -> str:
 
 CHECK_NAMES = {1: "base_columns", 2: "frames (break points, periods, columns, slices)", 3: "final main array (write-back)",
                10: "columns_to_run", 11: "wrt_spots", 12: "exogenized_spots", 13: "update map", 14: "jacobian lhs tokens",
-               15: "jacobian map", 16: "jacobian shape", 17: "stacked residual order", 18: "frame data after simulate_frame",
+               15: "jacobian map", 16: "jacobian shape", 17: "stacked residual order", 18: "frame data after simulate_frame (cells outside the unknown / terminal cells changed)",
+               30: "pruned frame data",
                19: "number of frames", 20: "terminal columns", 21: "terminal wrt spots", 22: "terminal column index",
                23: "terminit spots", 24: "first terminal", 25: "terminal jacobian map", 29: "terminator presence"}
 
@@ -1019,7 +1034,7 @@ def correspondence(ctx) -> CorrResult:
     res = CorrResult()
     n_models = ctx.scale(70, 2000)
     per_model = ctx.scale(3, 4)
-    per_shard = 12
+    per_shard = 25
     items = []
     dist = {"method": {}, "terminal": {}, "initial_guess": {}, "kind": {}, "frames": {}, "plan": 0, "log_variables": 0,
             "status": {}, "simulate_raised": 0, "first_order_compared": 0, "residual_checks": 0,
@@ -1065,9 +1080,14 @@ def correspondence(ctx) -> CorrResult:
                     "frames": [list(f[:6]) for f in r["create"]["frames"]],
                     "wrt_spots_first_frame": r["frames_rec"][0]["wrt_spots"][:12],
                     "status": [str(s) for s in r["info"]["exit_status"]]} for c, r in items[:3]]
+    import time as _t
+    t_sim = _t.time() - ctx.t0
     shards = [items[i:i + per_shard] for i in range(0, len(items), per_shard)]
     texts = [shard_text(sh) for sh in shards]
+    t_a = _t.time()
     results = core.run_cases(ctx, texts)
+    ctx.log(f"correspondence: {len(items)} simulations recorded by {t_sim:.0f}s after start; "
+            f"{len(texts)} Coq shards ({sum(len(t) for t in texts) // 1000} kB) evaluated in {_t.time() - t_a:.0f}s")
     res.shards = len(texts)
     for k, (ok, out) in enumerate(results):
         sh = shards[k]
@@ -1154,6 +1174,9 @@ def falsify(ctx, hints):
         if f.key not in seen:
             seen.add(f.key)
             uniq.append(f)
+    ctx.log(f"falsifier: {info['simulations']} simulations, {info['frames_success']} frames report success, "
+            f"{info['residuals']} residuals (max {info['max_residual']:.2g}), {info['fo_compared']} first-order comparisons "
+            f"(max diff {info['max_fo_diff']:.2g})")
     return uniq, info
 
 
